@@ -8,6 +8,8 @@ EXTENDS Merge
 CONSTANTS Triples,    \* BOOLEAN: also base + two overrides
           Cross       \* BOOLEAN: also two attributes in the base, one of them overridden (thorough)
 
+\* the service under test: a name that contains "x-" without being an extension key
+SvcKey == "linux-a"
 Port(t, p, extra) == M([k \in {"target", "published", "protocol"} \cup DOMAIN extra |->
                           IF k = "target" THEN I(t) ELSE IF k = "published" THEN S(p) ELSE IF k = "protocol" THEN S("tcp") ELSE extra[k]])
 Vol(ty, src, tgt, extra) == M([k \in {"type", "source", "target"} \cup DOMAIN extra |->
@@ -54,6 +56,8 @@ Attrs == <<
   [n |-> "configs", top |-> FALSE, p |-> <<"configs">>, alts |-> {Sq1(S("c1")), Sq1(M2("source", S("c1"), "target", S("/etc/c1"))), Sq1(M2("source", S("c2"), "target", S("/c1")))}],
   [n |-> "ipam config", top |-> TRUE, p |-> <<"networks", "n1", "ipam", "config">>,
      alts |-> {Sq2(M1("subnet", S("10.0.0.0/24")), M1("subnet", S("10.0.1.0/24"))), Sq1(M1("subnet", S("10.0.2.0/24"))), Sq1(M2("subnet", S("10.0.1.0/24"), "gateway", S("10.0.1.1")))}],
+  [n |-> "devices", top |-> FALSE, p |-> <<"devices">>,
+     alts |-> {Sq2(S("/dev/a:/dev/a:rwm"), S("/dev/b:/dev/b:rwm")), Sq2(S("/dev/c:/dev/c:rwm"), S("/dev/a:/dev/a:r")), Sq1(S("/dev/d")), Sq2(S("/dev/e:/dev/d"), S("/dev/f:/dev/b"))}],
   [n |-> "ulimits", top |-> FALSE, p |-> <<"ulimits">>, alts |-> {M1("nofile", I(100)), M1("nofile", M2("soft", I(10), "hard", I(20))), M1("nproc", I(5))}],
   [n |-> "deploy.limits", top |-> FALSE, p |-> <<"deploy", "resources", "limits">>, alts |-> {M1("cpus", S("0.5")), M1("memory", S("64M")), M2("cpus", S("1.5"), "pids", I(10))}],
   [n |-> "networks.labels", top |-> TRUE, p |-> <<"networks", "n1", "labels">>, alts |-> {Sq1(S("a=1")), M2("a", S("2"), "b", S("3"))}],
@@ -66,20 +70,20 @@ Nest(path, val) == IF path = <<>> THEN val ELSE M1(Head(path), Nest(Tail(path), 
 Img == M1("image", S("img"))
 Skeleton ==
   M([k \in {"services", "networks", "volumes", "secrets", "configs"} |->
-     CASE k = "services" -> M([s \in {"a", "db", "cache", "extra"} |-> Img])
+     CASE k = "services" -> M([s \in {SvcKey, "db", "cache", "extra"} |-> Img])
        [] k = "networks" -> M([s \in {"n1", "n2"} |-> EmptyM])
        [] k = "volumes"  -> M([s \in {"data", "other"} |-> EmptyM])
        [] k = "secrets"  -> M([s \in {"s1", "s2"} |-> M1("file", S("./sec"))])
        [] k = "configs"  -> M([s \in {"c1", "c2"} |-> M1("file", S("./cfg"))])])
-Place(a, val) == Nest((IF a.top THEN <<>> ELSE <<"services", "a">>) \o a.p, val)
+Place(a, val) == Nest((IF a.top THEN <<>> ELSE <<"services", SvcKey>>) \o a.p, val)
 Base(a, val) == Over(Skeleton, Place(a, val), <<>>)
 
 \* a document that does not mention the attribute at all
-EmptyDocFor(a) == IF a.top THEN M1("services", M1("a", M1("image", S("img")))) ELSE M1("services", M1("a", M1("hostname", S("h"))))
+EmptyDocFor(a) == IF a.top THEN M1("services", M1(SvcKey, M1("image", S("img")))) ELSE M1("services", M1(SvcKey, M1("hostname", S("h"))))
 VARIABLE cs
 Case(a, b, overs) ==
   LET base == Base(a, b) IN
-  [attr |-> a.n, base |-> base, overs |-> overs, target |-> OverrideAll(base, overs), path |-> (IF a.top THEN <<>> ELSE <<"services", "a">>) \o a.p]
+  [attr |-> a.n, base |-> base, overs |-> overs, target |-> OverrideAll(base, overs), path |-> (IF a.top THEN <<>> ELSE <<"services", SvcKey>>) \o a.p]
 Init == \E i \in 1..Len(Attrs) : cs = [seed |-> i]
 IsSeed == "seed" \in DOMAIN cs
 Next == /\ IsSeed
@@ -96,7 +100,7 @@ Next == /\ IsSeed
 CrossCase(a1, b1, a2, b2, o) ==
   LET base == OverrideAll(Base(a1, b1), <<Place(a2, b2)>>) IN
   [attr |-> a1.n, base |-> base, overs |-> <<Place(a1, o)>>, target |-> OverrideAll(base, <<Place(a1, o)>>),
-   path |-> (IF a1.top THEN <<>> ELSE <<"services", "a">>) \o a1.p]
+   path |-> (IF a1.top THEN <<>> ELSE <<"services", SvcKey>>) \o a1.p]
 CrossNext == /\ IsSeed /\ Cross
              /\ \E j \in 1..Len(Attrs) : j # cs.seed /\ Attrs[j].n # Attrs[cs.seed].n /\
                   \E b1 \in Attrs[cs.seed].alts : \E o \in Attrs[cs.seed].alts :
@@ -110,7 +114,7 @@ At(x, path) == IF path = <<>> THEN x ELSE IF ~IsM(x) \/ Head(path) \notin Keys(x
 Preserve == IsSeed \/
   /\ \A k \in Keys(cs.base) : \A n \in Keys(Get(cs.base, k)) :
         (<<k, n>> # SubSeq(cs.path, 1, 2)) => At(cs.target, <<k, n>>) = At(cs.base, <<k, n>>)
-  /\ At(cs.target, <<"services", "a", "image">>) = At(cs.base, <<"services", "a", "image">>) \/ cs.attr = "image"
+  /\ At(cs.target, <<"services", SvcKey, "image">>) = At(cs.base, <<"services", SvcKey, "image">>) \/ cs.attr = "image"
 \* a document consisting of !reset alone removes the attribute
 ResetRemoves == IsSeed \/ (Len(cs.overs) = 1 /\ HasTag(At(cs.overs[1], cs.path), "reset") => At(cs.target, cs.path) = [t |-> "absent"])
 \* !override replaces without merging
